@@ -3,7 +3,11 @@ package main
 import (
 	"bytes"
 	"fmt"
+	"io"
+	"os"
+	"os/exec"
 	"runtime"
+	"strconv"
 	"strings"
 
 	"github.com/willabides/rjson"
@@ -36,7 +40,7 @@ func (c19) Assumptions() []string {
 }
 func (c19) Required(tier string) []string {
 	return []string{"measured", "first-call-measured", "measured-after-failed-call", "path-float-exact", "path-float-eisel-lemire", "path-float-long-mantissa", "path-float-halfway", "path-float-subnormal", "path-int-18", "path-int-19", "path-int-20",
-		"path-string-escapes", "path-string-surrogate-pair", "path-depth-equals-warmed", "path-decode-null", "handler-consume", "handler-decline", "handler-nested-per-level-buffers", "dst-slack-0", "dst-aliases-input", "dst-in-same-arena-as-input", "P-evict-by-GC"}
+		"path-string-escapes", "path-string-surrogate-pair", "path-depth-equals-warmed", "path-decode-null", "handler-consume", "handler-decline", "handler-nested-per-level-buffers", "dst-slack-0", "dst-aliases-input", "dst-in-same-arena-as-input", "P-evict-by-GC", "cold-process-first-call-measured"}
 }
 
 var c19Floats = map[string][]string{
@@ -174,6 +178,9 @@ func (c19) Gen(r *Rand, sc *Scenario, tier string) {
 		op := Op{Kind: fn, Doc: i, A: r.Intn(4), B: []int{0, 0, 1, 3, 16}[r.Intn(5)], C: []int{0, 0, 3, 40, 11, 8}[r.Intn(6)]}
 		if op.A == 2 {
 			op.Tape = genDecisionTape(r, r.Range(1, 70), false)
+		}
+		if r.Chance(1, 12) {
+			op.Rep = 2 // also measured as the first call of a fresh process
 		}
 		ops = append(ops, op)
 	}
@@ -383,6 +390,67 @@ func measureAllocs(fn string, x *c19ctx, data []byte) uint64 {
 	return best
 }
 
+// cmdCold1 is the child side of the cold-process measurement: a fresh process whose very first
+// call of fn (on the input read from stdin) is measured. Nothing of the library has run in this
+// process before, except - for the functions that take a Buffer - one call of a DIFFERENT
+// buffer-taking function on the same document, which is what "a Buffer that has already been used
+// on a document at least as deeply nested" means. State that is initialised lazily on first use
+// (a table built under sync.Once, a pool filled on demand) allocates here and nowhere else.
+// Output: "<ok> <mallocs>".
+func cmdCold1(args []string) int {
+	runtime.GOMAXPROCS(1)
+	fn := args[0]
+	slack, _ := strconv.Atoi(args[1])
+	data, err := io.ReadAll(os.Stdin)
+	if err != nil {
+		return 2
+	}
+	data = append(make([]byte, 0, len(data)), data...)
+	x := &c19ctx{buf: &rjson.Buffer{}, rh: &replayHandler{}, nh: newNestHandler(1)}
+	switch fn {
+	case "Valid":
+		rjson.SkipValue(data, x.buf)
+	case "SkipValue", "SkipValueFast", "HandleArrayValues", "HandleObjectValues":
+		rjson.Valid(data, x.buf)
+	}
+	x.dst = make([]byte, 0, len(data)+slack)
+	var a, b runtime.MemStats
+	runtime.ReadMemStats(&a)
+	runtime.ReadMemStats(&b)
+	runtime.GC()
+	runtime.ReadMemStats(&a)
+	ok := c19call(fn, x, data)
+	runtime.ReadMemStats(&b)
+	fmt.Printf("%v %d\n", ok, b.Mallocs-a.Mallocs)
+	return 0
+}
+
+// coldMeasure runs the child up to three times; the reading is the minimum (a deterministic
+// first-use allocation shows in every fresh process, noise does not).
+func coldMeasure(fn string, slack int, data []byte) (ok bool, allocs uint64, ran bool) {
+	best := ^uint64(0)
+	for attempt := 0; attempt < 3 && best != 0; attempt++ {
+		cmd := exec.Command(os.Args[0], "cold1", fn, strconv.Itoa(slack))
+		cmd.Stdin = bytes.NewReader(data)
+		out, err := cmd.Output()
+		if err != nil {
+			return false, 0, false
+		}
+		var okS string
+		var n uint64
+		if _, err := fmt.Sscan(string(out), &okS, &n); err != nil {
+			return false, 0, false
+		}
+		if okS != "true" {
+			return false, 0, true
+		}
+		if n < best {
+			best = n
+		}
+	}
+	return true, best, true
+}
+
 func (c19) Exec(sc *Scenario, st *Stats) *Violation {
 	buf := &rjson.Buffer{}
 	x := &c19ctx{buf: buf, rh: &replayHandler{}, nh: newNestHandler(4)}
@@ -564,6 +632,16 @@ func (c19) Exec(sc *Scenario, st *Stats) *Violation {
 			continue
 		}
 		st.probe("first-call-measured")
+		if op.Rep == 2 && !x.nest && (!isDocFn || len(x.rh.offs) == 0 || op.A == 0) && len(data) <= 1<<16 {
+			// the same call as the very first one of a fresh process
+			if cok, n, ran := coldMeasure(op.Kind, op.B, data); ran && cok {
+				st.probe("cold-process-first-call-measured")
+				if n != 0 {
+					return &Violation{Class: "allocates", Task: 0, Op: oi, Sig: "C19/allocates-cold-process/" + op.Kind + "/" + d.Class,
+						Detail: fmt.Sprintf("call %d, %s on %q (class %s): %d heap allocations when it is the first such call of a fresh process (minimum over 3 fresh processes); 0 once the process is warm", oi, op.Kind, clip(string(data), 80), d.Class, n)}
+				}
+			}
+		}
 		if first != 0 {
 			return &Violation{Class: "allocates", Task: 0, Op: oi, Sig: "C19/allocates-first-call/" + op.Kind + "/" + d.Class,
 				Detail: fmt.Sprintf("call %d, %s on %q (class %s, handler mode %d, dst slack %d, Buffer stack len %d cap %d): %d heap allocations in the first successful call on resources that already meet the preconditions", oi, op.Kind, clip(string(data), 80), d.Class, op.A, op.B, sl, sc0, first)}
